@@ -464,6 +464,7 @@ func (c01) Run(ctx *Ctx, ci interface{}) (o Outcome) {
 	}
 	var left []leftBehind
 	trimMap := map[string]string{}
+	nameMap := map[string]string{}
 	// check is evaluated after every operation. modelled: the model fixes the content.
 	check := func(modelled bool) bool {
 		for _, lb := range left {
@@ -694,7 +695,13 @@ func (c01) Run(ctx *Ctx, ci interface{}) (o Outcome) {
 			for i := range m.rows {
 				m.rows[i].Name = re.ReplaceAllString(m.rows[i].Name, op.Repl)
 			}
-			if err := cont.RenameRegexp(op.Regex, op.Repl, map[string]string{}); err != nil {
+			// half of the time the map of old and new names is one object for the whole history (a caller that collects
+			// every renaming it made): it is written to, never read from
+			rmap := map[string]string{}
+			if op.Flag {
+				rmap = nameMap
+			}
+			if err := cont.RenameRegexp(op.Regex, op.Repl, rmap); err != nil {
 				fail("unexpected-error", "RenameRegexp(%q) returns %v", op.Regex, err)
 				return
 			}
@@ -709,7 +716,11 @@ func (c01) Run(ctx *Ctx, ci interface{}) (o Outcome) {
 			cont.AppendSeqIdentifier(op.Name, op.Flag)
 		case "clean-names":
 			modelled = false
-			cont.CleanNames(nil)
+			if op.Flag {
+				cont.CleanNames(nameMap)
+			} else {
+				cont.CleanNames(nil)
+			}
 			// two names that differ only in the cleaned characters become one name: the caller's doing
 			if rows, _ := observe(cont); (&hModel{rows: rows}).dupNames() {
 				m.dupOK = true
